@@ -89,17 +89,12 @@ def gen_persist_model(engine=None, target=None):
     txt = re.sub(r"(:|→) M (?=[A-Z(])", r"\1 MP ", txt)
     txt = re.sub(r"\bonPanic\b", "onPanicP", txt)
     txt = re.sub(r"\) \((undoRegister [^()\n]*|popComputing [^()\n]*)\)", r") (liftE (\1))", txt)
-    def mark(anchor, comment):
-        nonlocal txt
-        n = txt.count(anchor)
-        if n != 1:
-            raise RuntimeError(f"gen_persist_model: publication anchor found {n} times (expected 1): {anchor!r}")
-        indent = re.match(r"\s*", anchor.split("\n")[-2] if anchor.endswith("\n") else anchor).group(0)
-        txt = txt.replace(anchor, anchor + f"{indent}publish   -- {comment}\n")
-    mark("    addBackEdges k comp.order\n", "`set_computed`: submit_write_buffer(tx)")
-    mark("        setNode k { n with tfc := newTfc, lastVerified := (← getS).epoch }\n", "`clean_query`: submit_write_buffer(tx)")
-    mark("    setNode k { n with pendingBP := none }\n", "`done_backward_projection`: submit_write_buffer(tx)")
-    mark("  dirtyPropagate (4 * (← getS).back.length + p.length + 8) batch\n", "`commit_internal`: submit_write_buffer(transaction)")
+    # the four places where the code submits a write batch are marked in Model/Engine.lean by comment lines
+    # `-- @publish <label>`; each becomes a `publish` call in the copy
+    marks = re.findall(r"^[ \t]*-- @publish .*$", txt, flags=re.M)
+    if len(marks) != 4:
+        raise RuntimeError(f"gen_persist_model: expected 4 `-- @publish` markers in Model/Engine.lean, found {len(marks)}")
+    txt = re.sub(r"^([ \t]*)-- @publish (.*)$", r"\1publish   -- \2", txt, flags=re.M)
     cur = open(target).read()
     i = cur.index(BEGIN) + len(BEGIN)
     j = cur.index(END)
